@@ -103,10 +103,6 @@ theorem checkStmt_decl (env : Env) (cur : Cur) (s : Stmt) (f : Facts) :
     (∀ e ∈ (checkStmt env cur s f).cur.vars, (∃ e' ∈ cur.vars, e'.id = e.id) ∨
         (e.id ∈ Eval.declIds [(checkStmt env cur s f).val] ∧ f.locals.length ≤ e.id ∧
           e.id < (checkStmt env cur s f).facts.locals.length)) := by
-  have triv : ∀ (c : Cur), c.vars = cur.vars → ∀ e ∈ c.vars, (∃ e' ∈ cur.vars, e'.id = e.id) ∨
-      (e.id ∈ ([] : List Nat) ∧ f.locals.length ≤ e.id ∧
-        e.id < (checkStmt env cur s f).facts.locals.length) :=
-    fun c hc e he => Or.inl ⟨e, hc ▸ he, rfl⟩
   cases s with
   | assign x xs e b sid sp =>
     simp only [checkStmt]
